@@ -20,7 +20,7 @@ META = {
     "functions": ["typelib.py.classes.slotted", "typelib.py.classes.slotted.<locals>.wrap", "typelib.py.classes._stack"],
     "bounds": {
         "quick": "dataclasses with 0-3 fields (no default / default / default_factory), flags frozen, eq, order, unsafe_hash, bases "
-                 "{none, unslotted dataclass, slotted dataclass, slotted with weakref}, user __getstate__/__setstate__, the four "
+                 "{none, unslotted dataclass, slotted dataclass, slotted with weakref, slotted parent over an unslotted grandparent}, user __getstate__/__setstate__, the four "
                  "(dict, weakref) combinations - every combination (choice variables, exhaustively enumerated); decoration histories "
                  "of 1-3 classes over {valid dataclass, same-named frozen dataclass, non-dataclass (fails), same-named subclass of an unslotted dataclass, other name}",
         "thorough": "0-4 fields, histories of 1-4 classes",
@@ -89,8 +89,12 @@ def build(ch: Chooser, max_fields, basek, d, w):
     base = None
     if basek:
         base = _mk("Base", [("b", int, dataclasses.field(default=7))], frozen=frozen, eq=eq, order=order)
-        if basek >= 2:
+        if basek in (2, 3):
             base = _slotted(base, dict=False, weakref=(basek == 3))
+        if basek == 4:  # unslotted grandparent behind a slotted parent
+            ground = _mk("Ground", [("g", int, dataclasses.field(default=1))], frozen=frozen, eq=eq, order=order)
+            mid = _mk("Base", [("b", int, dataclasses.field(default=7))], bases=(ground,), frozen=frozen, eq=eq, order=order)
+            base = _slotted(mid, dict=False, weakref=False)
     flags = dict(frozen=frozen, eq=eq, order=order, unsafe_hash=unsafe_hash)
     ns = {}
     C = _mk("C", fields, bases=(base,) if base else (), **flags)
@@ -103,7 +107,7 @@ def build(ch: Chooser, max_fields, basek, d, w):
 
 def compare(C, S, base, desc, dw):
     d, w = dw
-    own = [f.name for f in dataclasses.fields(C) if f.name != "b" or base is None]
+    own = [f.name for f in dataclasses.fields(C) if f.name not in ("b", "g") or base is None]
     # ---- shape of the class ------------------------------------------------------------------------
     # (dataclasses' own slots=True semantics: one slot per field that is not already a slot of a base;
     #  a base without __slots__ provides __dict__ and __weakref__)
@@ -136,7 +140,7 @@ def compare(C, S, base, desc, dw):
         s1, s1b, s2 = S(*args1), S(*args1), S(*args2, **kw2)
     except Exception as e:  # noqa: BLE001
         return ("construction_differs:" + type(e).__name__, "init", _d(desc, e))
-    has_dict_base = base is not None and desc["base"] == 1
+    has_dict_base = base is not None and desc["base"] in (1, 4)
     if hasattr(s1, "__dict__") != (d or has_dict_base):
         return ("instance_dict_presence", "slots", _d(desc, hasattr(s1, "__dict__")))
     for f in dataclasses.fields(C):
@@ -310,6 +314,6 @@ def make_history(length, timeout):
 def conditions(tier, seed):
     to = 40.0 if tier == "quick" else 180.0
     mf = 3 if tier == "quick" else 4
-    out = [make_def(b, d, w, to, mf) for b in range(4) for d in (False, True) for w in (False, True)]
+    out = [make_def(b, d, w, to, mf) for b in range(5) for d in (False, True) for w in (False, True)]
     out += [make_history(n, to) for n in ((1, 2, 3) if tier == "quick" else (1, 2, 3, 4))]
     return out
